@@ -694,10 +694,10 @@ class Unit:
         define a quantum.
         """
         cls = self.qty_cls
-        if cls.quantum is None:
+        if cls.quantum is None or self._equiv is None:
+            # without a scale the quantum (which is given in terms of the
+            # reference unit) can't be applied to the unit
             return None
-        # cls.quantum not None => cls.ref_unit not None => self._equiv not None
-        assert self._equiv is not None
         return cls.quantum / self._equiv
 
     def __hash__(self) -> int:
